@@ -799,12 +799,12 @@ def local_cases(draw, budget=14):
 # runner
 
 N_SHARDS = 16
-# measured single-process cost incl. generation (ms per case): stmt ~, inherit ~, modules ~, local ~
+# measured single-process CPU cost incl. generation (ms per case): stmt ~30, inherit ~13, modules ~30, local ~25
 SIZES = {  # stream -> (quick, thorough) cases per shard
-    "stmt": (450, 6000),
-    "inherit": (250, 3500),
-    "modules": (250, 3500),
-    "local": (500, 7000),
+    "stmt": (350, 5000),
+    "inherit": (400, 6000),
+    "modules": (300, 4500),
+    "local": (450, 7000),
 }
 
 
